@@ -717,6 +717,11 @@ func (p *c10prop) Plan(tier string, seed int64) []core.Segment {
 		{Kind: "corpus:family", N: 500},
 		{Kind: "family", N: fam},
 		{Kind: "pipeline", N: 400 * tierScale(tier, 20), Chunk: 10},
+		// nesting depths of hundreds of groups (runs, short periods,
+		// staircases) with large maxLen, still decided by brute force
+		{Kind: "deep", N: 60 * tierScale(tier, 10), Chunk: 4},
+		// texts of 70 kB to 1 MiB, decided by the linear oracle (segbig.go)
+		{Kind: "bigseg", N: 16 * tierScale(tier, 6), Chunk: 1},
 	}
 }
 
@@ -740,6 +745,64 @@ func (p *c10prop) Gen(kind string, idx int64, seed int64, tier string) core.Case
 			s = 0
 		}
 		r := core.Rand(s, p.id, kind, idx)
+		if class == "" && kind == "deep" {
+			n := 150 + r.Intn(450)
+			var t []byte
+			f := []string{"run", "periodic", "stairs", "fib", "tworuns", "runmix"}[r.Intn(6)]
+			switch f {
+			case "periodic":
+				t = gen.PeriodicRun(r, 1+r.Intn(5), n, 3)
+			case "stairs":
+				// a^k b a^(k-1) b ... : groups nested k deep, closed one by one
+				for k := 2 + r.Intn(30); k > 0 && len(t) < n; k-- {
+					for j := 0; j < k; j++ {
+						t = append(t, 'a')
+					}
+					t = append(t, 'b'+byte(r.Intn(2)))
+				}
+				for len(t) < n {
+					t = append(t, 'a')
+				}
+			default:
+				t = gen.Family(r, f, n, gen.Hint{})
+			}
+			mn := r.Intn(4)
+			mx := []int{n, 1000, 300, 129, 257, 65, 64, 128, 256}[r.Intn(9)]
+			if mx < mn {
+				mx = mn
+			}
+			sc = SfxCase{Text: t, Family: "deep:" + f, Min: mn, Max: mx}
+			return core.MkCase(p.id, kind, idx, seed, tier, sc)
+		}
+		if class == "" && kind == "bigseg" {
+			var t []byte
+			f := []string{"text", "rand4", "records", "tandem", "rand16", "run", "lzsynth", "rand256"}[idx%8]
+			n := []int{70000, 100000, 200000, 300000, 1 << 20}[r.Intn(5)]
+			switch f {
+			case "records":
+				t = gen.Records(r, n/7, 64, 4, 3)
+			case "tandem":
+				t = gen.Tandem(r, n/3, 3, 4)
+			case "run":
+				// a run of 1000-3000 bytes (nesting as deep as the run is long)
+				// inside random bytes
+				t = gen.Family(r, "rand16", n, gen.Hint{})
+				l := 1000 + r.Intn(2000)
+				off := r.Intn(n - l)
+				for j := 0; j < l; j++ {
+					t[off+j] = 'r'
+				}
+			default:
+				t = gen.Family(r, f, n, gen.Hint{Window: 1 << 16, Block: 1 << 12, MinMatch: 3})
+			}
+			mn := 2 + r.Intn(4)
+			mx := mn + []int{0, 1, 5, 14, 16}[r.Intn(5)]
+			if f == "run" {
+				mx = []int{300, 1000, 4000}[r.Intn(3)]
+			}
+			sc = SfxCase{Text: t, Family: "bigseg:" + f, Min: mn, Max: mx}
+			return core.MkCase(p.id, kind, idx, seed, tier, sc)
+		}
 		if class == "" && kind == "pipeline" {
 			// Sort -> LCP -> Segments as the optimizing parser uses them, on
 			// texts of 100-900 bytes with repeats of 20-300 bytes (planted
@@ -980,6 +1043,16 @@ func (p *c10prop) Run(c *core.Case, st *core.Stats) []core.Violation {
 		return []core.Violation{core.V(c, "harness", "bad case: %v", err)}
 	}
 	t := sc.Text
+	if c.Kind == "bigseg" {
+		class, msg := checkSegmentsBig(t, sc.Min, sc.Max, core.Rand(c.Seed, "C10", "bigseg-pairs", c.Idx), st)
+		if class != "" {
+			return []core.Violation{core.V(c, class, "text of %d bytes (family %s) minLen=%d maxLen=%d, suffix array from suffix.Sort (verified), LCP table by the harness: %s", len(t), sc.Family, sc.Min, sc.Max, msg)}
+		}
+		st.Inc("segments_calls")
+		st.Inc("segments_calls_on_big_texts")
+		st.NonTrivial(c)
+		return nil
+	}
 	lm := lcpMatrix(t)
 	// does the LCP profile fall and rise again (the shape on which a lost
 	// left boundary shows)?
@@ -1033,5 +1106,5 @@ func init() {
 	core.Register(&c10prop{base{id: "C10", level: "exploration",
 		rule:        "exhaustive small scope: all texts over {a,b} up to length 12 (thorough 16) and over {a,b,c} up to length 7 (thorough 10), each with ALL 0 <= minLen <= maxLen <= 5 (thorough 6), plus seeded family texts up to 200 bytes with random (minLen, maxLen); Segments receives a naively computed suffix array and LCP table (independent of C09); each call runs in four modes: callback copies only / callback sorts the segment in place (as osap.go does) / lcp and sa are adjacent sub-slices of one allocation guarded by canaries / the callback calls Segments itself on another text; every clause is decided by brute force over all suffix pairs from a pairwise LCP matrix; non-trivial iff len(t) >= 3; distinct = distinct (text, bounds)",
 		assumptions: []string{"minLen > maxLen and negative bounds are outside the quantifier of C10 and are not executed"},
-		mandatory:   []string{"segments_calls", "pairs_checked", "texts_with_fall_and_rise_profile", "empty_text", "callbacks", "segments_calls_mode4"}}})
+		mandatory:   []string{"segments_calls", "pairs_checked", "texts_with_fall_and_rise_profile", "empty_text", "callbacks", "segments_calls_mode4", "segments_calls_on_big_texts", "lcp_intervals_checked", "nested_groups_order_checked", "texts_with_interval_nesting_deeper_than_64"}}})
 }
